@@ -14,7 +14,7 @@ FUNCTIONS = ["gcmpy.tools.markov_chain_monte_carlo_rewiring.MarkovChainMonteCarl
 STUBS = ["random.choice -> forked edge index", "random.random -> fresh real in [0,1)",
          "target: lazy symmetric dictionary, first lookup forks absent / present(w>=0); pairings of existing edges are positive"]
 BOUNDS = {
-    "quick": "every placement of [edge,edge] on <=4 vertices with <=2 annotation extras and the templates chain2, star2, trideg; one accepted swap; <=6 draws",
+    "quick": "every placement of [edge,edge] on <=4 vertices with <=2 annotation extras and the templates chain2, star2, trideg, diamond2pair, twotopo (one pairing shared by two topologies); one accepted swap; <=6 draws",
     "thorough": "additionally [edge,edge,edge] on 4, [tri,edge] on 4, templates mixed, tri3fan; search_limit 2",
 }
 OUTSIDE = "the literal claim 'the distance to the target is smaller after rewiring' is statistical (false for individual RNG outcomes even for a " \
@@ -41,7 +41,7 @@ def configs(tier):
         cfgs.append({"name": f"template-{name}-search{search}", "template": name, "conv": 0, "search": search, "kind": "template"})
 
     add(["edge", "edge"], 4)
-    for t in ("chain2", "star2", "trideg", "diamond2pair"):
+    for t in ("chain2", "star2", "trideg", "diamond2pair", "twotopo"):
         tpl(t)
     if not q:
         add(["edge", "edge", "edge"], 4)
